@@ -423,7 +423,88 @@ def batch_processor(sym, tier):
     return r
 
 
+def pooled_cycle(sym, tier):
+    """3 items with symbolic arrival instants, directly or through a one-hop forwarder, into a real
+    PooledCycleResource (pool 1-2 units, 2 ns cycle, waiting room 1-2 or unbounded): every item is completed
+    once or counted as rejected, an item admitted to the waiting room is never rejected later, items are
+    served in arrival order, never more active cycles than units, nothing waits while a unit is free."""
+    from happysimulator.components.industrial.pooled_cycle import PooledCycleResource
+    r = Result()
+    units = 1 + sym.choice("pool_size_minus_1", 2)
+    qcap = sym.choice("queue_capacity", 3)          # 0 = unbounded
+    done = []
+    sink = Sink("sink", done)
+    pc = PooledCycleResource("pc", pool_size=units, cycle_time=2e-9, downstream=sink, queue_capacity=qcap)
+    fwd = Forwarder("fwd", pc)
+    sim = Simulation(entities=[pc, fwd, sink])
+    mon = Monitor(sim, cap=60)
+    m = 3
+    ts = [sym.int(f"arrive{i}", 0, 4) for i in range(m)]
+    via = [sym.bool(f"via_forwarder{i}") for i in range(m)]
+    problems = []
+
+    def on_advance(t):
+        if pc.queued > 0 and pc.available > 0:
+            problems.append(("no_time_passes_while_item_waits_and_worker_free", t.nanoseconds, pc.queued, pc.active))
+
+    def on_event(e):
+        if pc.active > units:
+            problems.append(("in_service_never_exceeds_concurrency", pc.active))
+
+    sim.control.on_time_advance(on_advance)
+    sim.control.on_event(on_event)
+    sim.schedule([mk_event(ts[i], f"req{i}", fwd if via[i] else pc) for i in range(m)])
+    try:
+        sim.run()
+    except SpinDetected:
+        pass
+    mon.judge(r, "pooled_cycle")
+    for p_ in problems[:1]:
+        r.bad(p_[0], {"detail": p_[1:], "arrivals_ns": ts, "via_forwarder": via, "units": units, "queue_capacity": qcap})
+    labels = [l for (l, t) in done]
+    if len(set(labels)) != len(labels):
+        r.bad("request_completed_at_most_once", labels)
+    if not mon.spun and len(labels) + pc.rejected != m:
+        r.bad("every_request_completed_or_counted_as_rejected", {"completed": labels, "rejected": pc.rejected, "offered": m})
+    if qcap == 0 and pc.rejected:
+        r.bad("unbounded_waiting_room_never_rejects", pc.rejected)
+    # arrival order at the resource: (instant, one hop later for forwarded items, creation order)
+    arr = sorted(range(m), key=lambda i: (ts[i], 1 if via[i] else 0, i))
+    served = [int(l[3:]) for l in labels]
+    if units == 1 and [i for i in arr if i in served] != served:
+        r.bad("items_served_in_arrival_order", {"served": served, "arrival_order": arr, "arrivals_ns": ts, "via_forwarder": via, "queue_capacity": qcap,
+                                                 "completions_ns": [t for (l, t) in done]})
+    if pc.rejected:
+        r.wit.add("rejected_when_full")
+    if any(via) and not all(via) and len(set(ts)) < m:
+        r.wit.add("same_instant_different_hops")
+    r.obs = {"done": done, "rejected": pc.rejected}
+    return r
+
+
 def _pipe_classify(clause, draws, obs):
+    return None
+
+
+def _pooled_classify(clause, draws, obs):
+    """Known finding: when a cycle ends, PooledCycleResource frees the unit and re-injects the head of its waiting
+    room as a new event; an item arriving at that very instant is handled first and takes the unit.  Recognised only
+    when nothing is lost and every item that jumped ahead arrived exactly at a completion instant."""
+    import json
+    if not clause.startswith("items_served_in_arrival_order"):
+        return None
+    try:
+        d = json.loads(clause.split(": ", 1)[1])
+    except Exception:
+        return None
+    served, arr, ts = d["served"], d["arrival_order"], d["arrivals_ns"]
+    if sorted(served) != sorted(i for i in arr if i in served):
+        return None
+    pos = {i: k for k, i in enumerate(arr)}
+    comps = set(d["completions_ns"])
+    jumpers = [j for k, j in enumerate(served) if any(pos[i] < pos[j] for i in served[k + 1:])]
+    if jumpers and all(ts[j] in comps for j in jumpers):
+        return "pooled-cycle-arrival-at-a-completion-instant-overtakes-the-waiting-item"
     return None
 
 
@@ -488,4 +569,10 @@ HARNESSES = [
       functions=["BatchProcessor.handle_event/_handle_timeout/_process_batch"],
       bounds=lambda tier: {"items": 3 if tier == "quick" else 4, "arrivals": "symbolic ns [0,8]", "batch size": [1, 2, 3], "timeout ns": [0, 5], "process ns": 2},
       outside=["a timeout falling on the very instant of an arrival (either order accepted)", "other industrial variants: balking, reneging, conveyor, gate, pooled cycle, shift schedule"]),
+    H(name="c08_pooled_cycle", fn=pooled_cycle, shape="S", budget=lambda tier: 900.0,
+      cubes=lambda tier: [{"pool_size_minus_1": a, "queue_capacity": b, "via_forwarder0": c} for a in range(2) for b in range(3) for c in range(2)],
+      require=lambda tier: ["rejected_when_full", "same_instant_different_hops"], classify=_pooled_classify,
+      functions=["PooledCycleResource.handle_event/_start_cycle"],
+      bounds=lambda tier: {"items": 3, "arrivals": "symbolic ns [0,4], direct or via one forwarder hop", "units": [1, 2], "cycle ns": 2, "waiting room": ["unbounded", 1, 2]},
+      outside=["other industrial variants: balking, reneging, conveyor, gate, shift schedule"]),
 ]
